@@ -75,10 +75,21 @@ def run_pool(worker: Callable[[Any], Any], tasks: Sequence[Any], procs: int = 16
         for t in tasks:
             yield _guarded((worker, t))
         return
-    ctx = multiprocessing.get_context("fork")
-    with ctx.Pool(procs, maxtasksperchild=None) as pool:
-        for res in pool.imap(_guarded, [(worker, t) for t in tasks], chunksize):
-            yield res
+    # Everything allocated so far (isla, z3, antlr ...) goes to the permanent
+    # generation: full collections in the forked workers then do not walk (and
+    # copy-on-write) the inherited heap, which otherwise stalls single cases for
+    # many seconds on a busy machine.
+    import gc
+
+    gc.collect()
+    gc.freeze()
+    try:
+        ctx = multiprocessing.get_context("fork")
+        with ctx.Pool(procs, maxtasksperchild=None) as pool:
+            for res in pool.imap(_guarded, [(worker, t) for t in tasks], chunksize):
+                yield res
+    finally:
+        gc.unfreeze()
 
 
 # --------------------------------------------------------------------------- #
